@@ -960,6 +960,43 @@ def rule_F3c(ctx, prog, label, rule='F3c'):
         rr.ob(ok, dict(function=name, window=pp(c)[:80]),
               Finding(rule, '%s|%s' % (rule, name), c.loc, name,
                       'padding rows of B are windowed as rows [%r, B.nrows) x columns [%r, %r) here, but they are rows [A.nrows, B.nrows) x [0, B.ncols)' % (lr, lc, hc), {}, label))
+    # ... and in both variants the verdict looks at them: the window is handed to mzd_is_zero, before anything clears it.
+    # (A is padded with zero rows, so a non-zero padding row of B makes the system inconsistent - for the variant that is
+    # given a PLUQ factorisation as much as for the one that computes it.)
+    from .cfg import cfg_of
+    for (name, c, lr, lc, hc) in found:
+        f = prog.func(name)
+        fs = FuncSym(f)
+        g = cfg_of(f)
+        dom = g.dominators()
+        var = None
+        for vid, ds in fs.defs.items():
+            if any(strip(d, casts=True) is c or any(x is c for x in d.walk()) for d in ds):
+                var = vid
+        rr.instances += 1
+        if var is None:
+            raise AnalysisBroken('F3c: the padding-row window of %s is not kept in a variable' % name)
+
+        def uses(callee):
+            out = []
+            for k in f.body.find('CallExpr'):
+                if callee_name(k) == callee and len(k.kids) > 1:
+                    a0 = strip(k.kids[1], casts=True)
+                    if a0.kind == 'DeclRefExpr' and a0.refid == var:
+                        out.append(k)
+            return out
+        tests = uses('mzd_is_zero')
+        clears = uses('mzd_set_ui')
+        ok, why = bool(tests), ''
+        if not tests:
+            why = 'the padding rows of B are never handed to mzd_is_zero: a right-hand side that is non-zero only there is reported as solvable'
+        for k in clears:
+            from .resources import _cnode_of
+            ck = _cnode_of(g, k)
+            if ok and not any(_cnode_of(g, t).id in dom.get(ck.id, ()) for t in tests):
+                ok, why = False, 'the padding rows are cleared before they are tested'
+        rr.ob(ok, dict(function=name, padding_rows_tested_by=pp(tests[0])[:40] if tests else None),
+              Finding(rule, '%s|%s|tested' % (rule, name), c.loc, name, '%s: %s' % (name, why), {}, label))
     return rr
 
 
